@@ -2,8 +2,9 @@ import Deltio.Proto.Attach
 /-
   Trace refinement for slice P1: the topic / subscription life-cycle events of a harness run, per
   subscription NAME, must be the visible projection of a run of `Deltio.P1` (repaired protocol).
-  Hidden steps (mailbox sends, `mark_attach_finished`, the handle lookup of a Delete) are inserted
-  lazily, right before the visible step that needs them.
+  Hidden steps (mailbox sends, `mark_attach_finished`, the handle lookup of a Delete, the choice
+  between the two ways a Delete finishes) are inserted lazily, right before the visible step that
+  needs them.
 -/
 namespace Driver.P1V
 open Deltio.P1
@@ -11,9 +12,9 @@ open Deltio.P1
 structure NameSt where
   name : String
   st : State
-  sids : List Nat            -- internal ids of this name's generations, in creation order (index = generation)
-  tid : Option Nat := none   -- topic (internal id) of the latest attach of this name
-  off : Bool := false        -- that topic was deleted while holding the entry: the slice assumes a live topic
+  sids : List Nat              -- internal ids of this name's generations, in creation order (index = generation)
+  tid : Option Nat := none     -- topic (internal id) that served the latest attach of this name
+  pending : Option Nat := none -- generation whose `delete.begin` was seen; how it finishes is not known yet
 
 structure VSt where
   case : String := ""
@@ -36,78 +37,91 @@ def runL (s : State) : List Label → Except String State
 
 def parseNat (s : String) : Nat := s.toNat?.getD 0
 
+def helperBusy (n : NameSt) : Bool :=
+  n.pending.isSome || (List.range n.st.next).any (fun g => (n.st.gen g).helper = .toSend || (n.st.gen g).helper = .sent)
+
 def vStep (v : VSt) (line : String) : VSt × String :=
   match line.trimAscii.toString.splitOn " " with
   | c :: rest =>
     let v := if c != v.case then ({ case := c } : VSt) else v
     match rest with
     | ["topic", tid, "delete"] =>
-      -- the deleted topic's map is cleared: names whose entry it held leave the slice
-      ({ v with deadTopics := parseNat tid :: v.deadTopics,
-                names := v.names.map (fun n => if n.tid == some (parseNat tid) && n.st.topic.isSome then { n with off := true } else n) }, "ok")
+      let t := parseNat tid
+      -- names whose latest attach this topic served see their topic die
+      let names := v.names.map (fun n =>
+        if n.tid == some t && !n.st.tdead then
+          match step n.st .topicDie with
+          | some s' => { n with st := s' }
+          | none => n
+        else n)
+      ({ v with deadTopics := t :: v.deadTopics, names := names }, "ok")
     | "sub" :: sid :: "new" :: _ :: name :: _ =>
       let sid := parseNat sid
       let n : NameSt := match v.names.find? (·.name == name) with
         | some n => n
         | none => { name := name, st := init true, sids := [] }
-      -- the generation number the model will give it
-      if n.off then (setName v { n with sids := n.sids ++ [sid] }, "ok") else   -- remembered, not validated
       if n.st.next != n.sids.length then (v, "p1:internal") else
       match runL n.st [.create] with
       | .ok s' => (setName v { n with st := s', sids := n.sids ++ [sid] }, "ok")
       | .error e => (v, "p1:create-while-registered " ++ name ++ " " ++ e)
     | ["topic", tid, "attach", sid] =>
       let sid := parseNat sid
+      let t := parseNat tid
       match findBySid v sid with
       | none => (v, "p1:attach-of-unknown-subscription")
       | some n =>
-        if n.off then (v, "ok") else
-        -- an attach served by an already deleted topic's actor: the name leaves the slice
-        if v.deadTopics.contains (parseNat tid) then (setName v { n with off := true, tid := some (parseNat tid) }, "ok") else
-        let n := { n with tid := some (parseNat tid) }
         match genOf n sid with
         | none => (v, "p1:internal")
         | some g =>
-          let pre := if (n.st.gen g).att = .toSend then [Label.attachSend g] else []
+          -- which topic does this generation live on?
+          let pre0 : List Label :=
+            if v.deadTopics.contains t then (if n.st.tdead then [] else [.topicDie])
+            else (if n.st.tdead then [.retarget g] else [])
+          let pre := pre0 ++ (if (n.st.gen g).att = .toSend then [Label.attachSend g] else [])
           match runL n.st pre with
           | .error e => (v, "p1:attach " ++ e)
           | .ok s1 =>
             if s1.mbT.head? != some (.attach g) then (v, "p1:attach-not-at-mailbox-head " ++ n.name)
             else match runL s1 [.topicTake] with
-              | .ok s2 => (setName v { n with st := s2 }, "ok")
+              | .ok s2 => (setName v { n with st := s2, tid := some t }, "ok")
               | .error e => (v, "p1:attach " ++ e)
     | ["topic", tid, "remove", who] =>
-      -- removal is by name; the event shows which internal id was in the topic's map ("-" = none).
-      -- Which name? the one whose helper is about to send / has sent the remove.
-      let busy := fun (n : NameSt) => !n.off && n.tid == some (parseNat tid) && (List.range n.st.next).any (fun g => (n.st.gen g).helper = .toSend || (n.st.gen g).helper = .sent)
+      -- removal is by name; the event shows which internal id was in the topic's map ("-" = none)
+      let t := parseNat tid
+      let busy := fun (n : NameSt) => n.tid == some t && helperBusy n
       let cand := if who == "-" then
           (match v.names.find? (fun n => busy n && n.st.topic.isNone) with
            | some n => some n
            | none => v.names.find? busy)
         else (findBySid v (parseNat who)).filter busy
-      let offOwner := if who == "-" then v.names.any (·.off) else ((findBySid v (parseNat who)).map (·.off)).getD false
       match cand with
-      | none => if offOwner then (v, "ok") else (v, "p1:remove-without-delete")
+      | none => (v, "p1:remove-without-delete")
       | some n =>
-        let g := ((List.range n.st.next).find? (fun g => (n.st.gen g).helper = .toSend || (n.st.gen g).helper = .sent)).getD 0
-        let pre := if (n.st.gen g).helper = .toSend then [Label.helperSend g] else []
-        match runL n.st pre with
-        | .error e => (v, "p1:remove " ++ e)
-        | .ok s1 =>
-          if s1.mbT.head? != some (.remove g) then (v, "p1:remove-not-at-mailbox-head " ++ n.name)
-          else
-            let seen : Option Nat := if who == "-" then none else some (parseNat who)
-            let model : Option Nat := s1.topic.bind (fun g' => n.sids[g']?)
-            if seen != model then (v, "p1:topic-entry-differs " ++ n.name)
-            else match runL s1 [.topicTake] with
-              | .ok s2 => (setName v { n with st := s2 }, "ok")
-              | .error e => (v, "p1:remove " ++ e)
+        -- a Delete whose `delete.begin` was seen turns out to go through the topic
+        let pre1 : List Label := match n.pending with
+          | some _ => [.actorDelete (n.st.dels.length - 1)]
+          | none => []
+        match runL n.st pre1 with
+        | .error _ => (v, "p1:delete-overtook-attach " ++ n.name)
+        | .ok s0 =>
+          let g := ((List.range s0.next).find? (fun g => (s0.gen g).helper = .toSend || (s0.gen g).helper = .sent)).getD 0
+          let pre := if (s0.gen g).helper = .toSend then [Label.helperSend g] else []
+          match runL s0 pre with
+          | .error e => (v, "p1:remove " ++ e)
+          | .ok s1 =>
+            if s1.mbT.head? != some (.remove g) then (v, "p1:remove-not-at-mailbox-head " ++ n.name)
+            else
+              let seen : Option Nat := if who == "-" then none else some (parseNat who)
+              let model : Option Nat := s1.topic.bind (fun g' => n.sids[g']?)
+              if seen != model then (v, "p1:topic-entry-differs " ++ n.name)
+              else match runL s1 [.topicTake] with
+                | .ok s2 => (setName v { n with st := s2, pending := none }, "ok")
+                | .error e => (v, "p1:remove " ++ e)
     | ["sub", sid, "delete.begin"] =>
       let sid := parseNat sid
       match findBySid v sid with
       | none => (v, "p1:delete-of-unknown-subscription")
       | some n =>
-        if n.off then (v, "ok") else
         match genOf n sid with
         | none => (v, "p1:internal")
         | some g =>
@@ -116,21 +130,27 @@ def vStep (v : VSt) (line : String) : VSt × String :=
           match runL n.st pre with
           | .error e => (v, "p1:delete.begin " ++ e)
           | .ok s1 =>
-            match runL s1 [.actorDelete (s1.dels.length - 1)] with
-            | .ok s2 => (setName v { n with st := s2 }, "ok")
-            | .error _ => (v, "p1:delete-overtook-attach " ++ n.name)
+            -- the repaired Delete reaches the actor only after the attach has finished
+            if (s1.gen g).att != .finished then (v, "p1:delete-overtook-attach " ++ n.name)
+            else (setName v { n with st := s1, pending := some g }, "ok")
     | ["sub", sid, "delete.end"] =>
       let sid := parseNat sid
       match findBySid v sid with
       | none => (v, "p1:delete-of-unknown-subscription")
       | some n =>
-        if n.off then (v, "ok") else
         match genOf n sid with
         | none => (v, "p1:internal")
         | some g =>
-          match runL n.st [.helperFinish g] with
-          | .ok s1 => (setName v { n with st := s1 }, "ok")
-          | .error _ => (v, "p1:finish-before-detach " ++ n.name)
+          match n.pending with
+          | some _ =>
+            -- no detach went through the topic: only possible when the topic is gone
+            match runL n.st [.actorDeleteDirect (n.st.dels.length - 1)] with
+            | .ok s1 => if s1.mgr.isSome then (v, "p1:finish-did-not-unregister " ++ n.name) else (setName v { n with st := s1, pending := none }, "ok")
+            | .error _ => (v, "p1:finish-before-detach " ++ n.name)
+          | none =>
+            match runL n.st [.helperFinish g] with
+            | .ok s1 => (setName v { n with st := s1 }, "ok")
+            | .error _ => (v, "p1:finish-before-detach " ++ n.name)
     | _ => (v, "ok")
   | [] => (v, "ok")
 
